@@ -231,18 +231,37 @@ def discharge(prog, f, n, kind, pv):
         if name == "drain" and len(hir.call_args(n)) > 1 and "RangeFull" in (hir.peel(hir.call_args(n)[1]).get("ty") or ""):
             return "G4: drain(..) over the full range is always in bounds"
         if name == "insert":
-            i = hir.lit_value(hir.call_args(n)[1])
-            if i == 0:
-                return "G4: insert at 0 is always in bounds"
-            recv = hir.call_args(n)[0]
-            os_ = pv.origins(f, hir.call_args(n)[1])
-            if os_ and all(r[0] == "call" and r[1].split("::")[-1] in ("position", "len") for r, p in os_):
-                return "G4: index is a position() within the list or its len()"
             from . import c07 as _c07
 
+            idx_e = hir.call_args(n)[1]
+            note = ""
+            sp_ = _c07.enum_offset_split(f, idx_e)
+            if sp_ is not None:
+                # `insert(base + k, ..)` in the k-th round of a loop that inserts one element per round into this
+                # list: k elements have been added by then, so base + k is in bounds whenever base was
+                lps = [a for a in f.ancestors(n) if a.get("k") == "Loop"]
+                between = []
+                for a in f.ancestors(n):
+                    if lps and a is lps[0]:
+                        break
+                    if a.get("k") == "If" or (a.get("k") == "Match" and not (a.get("source") or "").startswith("ForLoop")):
+                        between.append(a)
+                rp = hir.place(hir.call_args(n)[0])
+                others = [x for x in hir.walk(lps[0]) if hir.is_call(x) and x is not n and (hir.callee_name(x) or x.get("method")) in VEC_PANICS | {"push", "clear", "pop", "retain", "append", "extend"} and hir.call_args(x) and hir.place(hir.call_args(x)[0]) == rp] if lps else [None]
+                if not lps or between or others:
+                    return None
+                idx_e = sp_[0]
+                note = " (+ the running index of a loop that inserts one element per round)"
+            i = hir.lit_value(idx_e)
+            if i == 0:
+                return "G4: insert at 0 is always in bounds" + note
+            recv = hir.call_args(n)[0]
+            os_ = pv.origins(f, idx_e)
+            if os_ and all(r[0] == "call" and r[1].split("::")[-1] in ("position", "len") for r, p in os_):
+                return "G4: index is a position() within the list or its len()"
             _c07._PRED_CTX["prog"] = prog
             _c07._PRED_CTX["fn"] = f
-            idm = _c07.index_idiom(prog, f, hir.call_args(n)[1])
+            idm = _c07.index_idiom(prog, f, idx_e)
             if idm[0] == "after-last":
                 return "G4: index is rposition(..) + 1 of the list (<= len) or 0"
             if os_ and all((r[0] == "call" and r[1].split("::")[-1] == "count") or (r[0] == "lit" and r[1] == 0) for r, p in os_):
